@@ -64,7 +64,7 @@ func c17RunStore(entry int, stored []byte, missing bool) (*xt.T, Verdict) {
 	if !missing {
 		db.Set(append([]byte(prefix), sum...), stored)
 	}
-	obs, pmsg, alloc, timedOut := c17Guarded(true, func() *xt.T {
+	obs, pmsg, alloc, timedOut := c17GuardedMin(true, c17Budget(len(stored)), func() *xt.T {
 		switch entry {
 		case 30:
 			c, err := objects.GetCommit(db, sum)
